@@ -56,6 +56,9 @@ def c13_jobs(tier, seed):
     # an underlying writer that is neither an http.Flusher nor an io.ReaderFrom
     jobs.append({"pkg_short": "flamego", "body": "VH_C13_kstep", "params": {"k": 3 if tier == "quick" else 4, "short": 0, "noflush": 1},
                  "max_paths": 400000})
+    # before-hooks that register a further hook while they run
+    jobs.append({"pkg_short": "flamego", "body": "VH_C13_kstep", "params": {"k": 3 if tier == "quick" else 4, "short": 0, "nest": 1},
+                 "max_paths": 400000})
     jobs.append({"pkg_short": "flamego", "body": "VH_C13_step", "params": {}})
     return jobs
 
@@ -64,7 +67,7 @@ SPECS["C13"] = Spec(
     "C13", ["flamego/c13.go"], c13_jobs,
     assumptions=[
         "status codes in [100,999] (net/http panics outside that range)",
-        "before-hooks neither panic nor call back into the writer (re-entrant sync.Once deadlocks in the real program)",
+        "before-hooks neither panic nor write through the writer (re-entrant sync.Once deadlocks in the real program); in the nest=1 job every hook registers a further hook while it runs",
         "the underlying writer is a harness spy that is a Flusher but not a Hijacker/Pusher; its Write accepts a symbolic n<=len(b)",
         "sync.Once.Do is the intrinsic `if !done {f(); done=true}`, sync/atomic Load/Store are plain accesses",
         "one-step lemma covers histories of any length only modulo the stated invariant Inv (status!=0 <=> once done <=> one header sent; size==forwarded bytes; HEAD => 0 bytes)",
@@ -407,6 +410,12 @@ C09_PROGS = [
     (["R GET /{m: **, capture: 2}", "H 0 X-K=v", "R GET /{x}/{y}/{z}"], "GET", 5),
     (["R GET /b/?{m: **}", "H 0 X-K=v", "NF"], "GET", 4, "/b"),
     (["R GET /{m: **}/e", "H 0 X-K=v", "R GET /{x}/{y}/e"], "GET", 5),
+    # histories of Headers() calls: textually identical constraints on two routes, one of them constrained again;
+    # a route constrained twice, then another route given the first set
+    (["R GET /a", "R GET /{x}", "H 0 X-K=v", "H 1 X-K=v", "H 0 X-J=w"], "GET", 2),
+    (["R GET /a", "R GET /{x}", "H 0 X-K=v", "H 1 X-K=v", "H 1 X-J=w"], "GET", 2),
+    (["R GET /a", "H 0 X-K=v", "H 0 X-J=w", "R GET /b", "H 1 X-K=v", "R GET /{x}"], "GET", 2),
+    (["R GET /a/?b", "R POST /a/?b", "H 0 X-K=v", "H 1 X-K=v", "H 1 "], "?", 4),
 ]
 
 
@@ -473,6 +482,9 @@ C10_PROGS = [
     (["R POST /?u", "R * /u"], "?", 2),
     (["R POST /q/?r", "R GET,POST,PUT /q/r"], "?", 4),
     (["R * /q/?r", "R DELETE /q/r", "R GET /{x}"], "?", 4),
+    # Headers() called on a static route after its optional twin was registered (and the other way round)
+    (["R GET /u", "R GET /?u", "H 0 X-K=v"], "GET", 3), (["R GET /q/r", "R GET /q/?r", "H 0 X-K=v", "R GET /q/{x}"], "GET", 5),
+    (["R GET /u", "R GET /?u", "H 1 X-K=v"], "GET", 3), (["R GET /u", "R POST /?u", "H 0 X-K=v"], "?", 2),
 ]
 
 
@@ -532,6 +544,10 @@ def c03_jobs(tier, seed):
     for mw, grp, rt, action, cancel, kinds, deep in (shapes[:2] if tier == "quick" else shapes[:8]):
         jobs.append({"pkg_short": "flamego", "body": "VH_C03_chain", "max_paths": 900000,
                      "params": {"mw": mw, "grp": grp, "rt": rt, "action": action, "cancel": cancel, "kinds": kinds, "deep": min(deep, 2), "method": "HEAD"}})
+    # handlers that stream their body with io.Copy from a plain reader (the underlying writer is an io.ReaderFrom)
+    for mw, grp, rt, action, cancel, kinds, deep in (shapes[:1] if tier == "quick" else shapes[:4]):
+        jobs.append({"pkg_short": "flamego", "body": "VH_C03_chain", "max_paths": 900000,
+                     "params": {"mw": mw, "grp": grp, "rt": rt, "action": action, "cancel": cancel, "kinds": kinds, "deep": min(deep, 2), "copy": 1}})
     jobs.append({"pkg_short": "flamego", "body": "VH_C03_step", "params": {"n": 4 if tier == "quick" else 8}, "max_paths": 200000})
     return jobs
 
@@ -588,8 +604,8 @@ SPECS["C15"] = Spec(
     "C15", ["flamego/c13.go", "flamego/c03.go", "flamego/c15.go", "route/parse.go"], c15_jobs,
     assumptions=[
         "real Flame, Recovery() closure incl. its deferred function, LoggerInvoker, run/Next, inject, responseWriter; the interpreter implements defer/panic/recover and raises Go run-time panics itself (nil-map write, index out of range)",
-        "stubs: logger (no-op), runtime.Caller (ok=false, so the stack text is empty), os.ReadFile, fmt.Sprintf (subset incl. %[n]s), http.StatusText (host)",
-        "panic kinds: string, error value, two run-time errors, struct, failed dependency resolution; http.ErrAbortHandler is not special-cased by Recovery and is represented by an ordinary error value (net/http's package init is not run inside the interpreter)",
+        "stubs: logger (no-op), runtime.Caller (a stub stack of six frames in three files), os.ReadFile (knows those three files), fmt.Sprintf (subset incl. %[n]s), http.StatusText (host)",
+        "panic kinds: string (also empty, also ending in a line break), error value (also with an empty message), two run-time errors, struct, failed dependency resolution; http.ErrAbortHandler is not special-cased by Recovery and is represented by an ordinary error value (net/http's package init is not run inside the interpreter)",
         "panic(nil), panics in goroutines and in middleware placed before Recovery are outside the claim",
     ],
     bounds=lambda tier: {"middleware_before_recovery": "0..2", "pass_through_depth": "0..2 quick / 0..3 thorough", "earlier_status": "[100,999] symbolic", "env": "dev/prod/test"},
@@ -659,6 +675,7 @@ def c12_jobs(tier, seed):
         jobs.append({"pkg_short": "route", "setup": "VH_Route_setup", "body": "VH_Route_match",
                      "params": {"routes": "\n".join(rs), "n": n, "prefix": "", "roundtrip": 1, "family": "c12-roundtrip"}, "max_paths": 300000})
     jobs.append({"pkg_short": "flamego", "body": "VH_C12_named", "params": {"vlen": vlen}})
+    jobs.append({"pkg_short": "flamego", "body": "VH_C12_context", "params": {"vlen": vlen}})
     return jobs
 
 
@@ -800,7 +817,7 @@ SPECS["C18"] = Spec(
     assumptions=[
         "real accessors (Param*, Query*, SetCookie, Cookie) on a context built directly; net/url ParseQuery/QueryEscape/QueryUnescape, strings.TrimSpace, url.Values.Get executed from stdlib SSA",
         "string accessors: the query value is any byte string except the five query metacharacters & ; % + = (so that \"q=\"+v parses to v); presence and default symbolic",
-        "typed accessors: value drawn from a 24-entry menu of hostile numerals; strconv runs on the host for concrete text; the oracle is strconv itself (\"the standard parsing rules\")",
+        "typed accessors: value drawn from a menu of hostile numerals (signs, blanks, exponents, leading zeros, base prefixes, underscores, overflow); strconv runs on the host for concrete text; the oracle is strconv itself (\"the standard parsing rules\")",
         "cookie round trip as lemmas: L1 QueryEscape's output alphabet, L2 unescape∘escape = id (both on real net/url, all byte values), L3 flamego's SetCookie/Cookie; L4 (net/http writes and reads cookie values over L1's alphabet unchanged) is ASSUMED from net/http's documented valid cookie bytes: http.Cookie.String and Request.Cookie are stubbed (net/http's package initialisers are not run in the interpreter); the native replay runs the real net/http",
         "not asserted (statement silent): QueryStrings for a present-but-empty parameter, QueryTrim of a blank-only value with default, out-of-range numbers beyond strconv's clamping",
     ],
@@ -932,7 +949,7 @@ SPECS["C06"] = Spec(
 def c05_jobs(tier, seed):
     n = 3 if tier == "quick" else 5
     jobs = []
-    for prefix in ("/", "/s/", "/r/", "/m/", "/o", "/h", "/n/", "/g/c", "/d/"):
+    for prefix in ("/", "/s/", "/r/", "/m/", "/o", "/h", "/n/", "/g/c", "/d/", "/p/"):
         jobs.append({"pkg_short": "flamego", "setup": "VH_C05_setup", "body": "VH_C05_request",
                      "params": {"prefix": prefix, "n": n if prefix != "/" else n + 1}, "max_paths": 300000})
     # history: an earlier request for the same path with other headers / another method
@@ -947,7 +964,7 @@ SPECS["C05"] = Spec(
     assumptions=[
         "REDUCED CLAIM (DESIGN.md §3/C05, §4): thread interleavings are NOT explored. Decided is a sequential sufficient condition: during a request, for every input within the bounds, every store the framework executes targets memory allocated after the request entered ServeHTTP, or happens inside sync.Once.Do / under a held sync.Mutex / through sync/atomic. Then concurrent requests share only memory none of them writes unsynchronised, hence no data race on framework state and each response is a function of its own request (non-interference)",
         "the monitor is an assertion at every Store, MapUpdate, delete, in-place append, copy and reflect.Value.Set executed by the interpreter; shared memory = everything reachable from package globals (through them the application, its router trees, routes and injector) when the request starts",
-        "one application with a static-shortcut route, regex, match-all, optional, header-constrained and named routes, a Group with a Combo, request-scoped Map, Recovery, Renderer, URL building and a custom NotFound; the same request is served twice and must give the same response",
+        "one application (production mode) with a static-shortcut route, regex, match-all, optional, header-constrained and named routes, a Group with a Combo, request-scoped Map, Recovery with a route that panics (runtime.Caller is a stub stack of six frames in three files that the os.ReadFile stub knows), Renderer, URL building and a custom NotFound; the same request is served twice and must give the same response",
         "loggers and services the application maps itself are stubs; user handlers' own sharing, Flame.Run/Stop are outside the claim; stores performed by intrinsics (sync.Pool, strings.Builder) are not monitored",
     ],
     bounds=lambda tier: {"request_path": "route prefix + 0..%d arbitrary bytes" % (3 if tier == "quick" else 5), "method": "GET or POST", "header": "present or not"},
